@@ -42,7 +42,7 @@ BOUND = {
 }
 EXHAUSTIVE = {"quick": True, "thorough": True}
 ASSUMPTIONS = [
-    "compile is only chained where the documentation supports it (not after a format simulation)",
+    "compile after a format simulation is chained only with a deterministic (round-to-nearest) format, for the mlp / residual families",
     "A1: one seeded value draw per family; stochastic rounding draws pinned by the harness",
     "inductor results compared to 2e-4 relative (code generation reorders float32 arithmetic); "
     "everything else is compared bit for bit, except implementation-vs-hand-reference for chains "
@@ -87,6 +87,9 @@ def cases(tier: str, seed: int) -> List[Dict[str, Any]]:
                 if us and fam == "unit_layers":
                     continue
                 out.append({"family": fam, "unit_scale": us, "fmt": None, "final": "compile", "seed": seed})
+                # compile as the last transform of a chain that contains a (deterministic) format simulation
+                if fam in ("mlp", "residual"):
+                    out.append({"family": fam, "unit_scale": us, "fmt": "e5m2rn", "final": "compile", "seed": seed})
     return out
 
 
